@@ -75,6 +75,21 @@ def run(chk: core.Check):
                 report(chk, d.text, mine[0], both[mine[0]], r["obs"], r["exp"], how)
             chk.note_case(d.text)
         chk.clause(f"T3.{how}(truth,spec,code agree)", len(docs))
+    # "one block per source block in source order with no failed block" also holds for what the DEFAULT stack returns
+    # (values are transformed there and not compared; classes, keys and field keys are)
+    recs = splitpipe.t3(chk, bib, [d.text for d in docs], how="default", grammar=True)
+    for d, r in zip(docs, recs):
+        if r["raised"]:
+            report(chk, d.text, "raised", r["raised"], [], r["exp"], "default")
+        elif "blocks" in r["diff"]:
+            report(chk, d.text, "blocks", r["diff"]["blocks"], r["obs"], r["exp"], "default")
+        else:
+            keys_obs = [[o.get("cls"), o.get("key"), [f[0] for f in o.get("fields", [])]] for o in r["obs"]]
+            keys_exp = [[e.get("cls"), e.get("key"), [f[0] for f in e.get("fields", [])]] for e in r["exp"]]
+            if keys_obs != keys_exp:
+                i = next(j for j, (a, b) in enumerate(zip(keys_obs, keys_exp)) if a != b)
+                report(chk, d.text, "blocks", f"block {i + 1}: {keys_obs[i]} expected {keys_exp[i]}", r["obs"], r["exp"], "default")
+    chk.clause("T3.default(one block per source block, classes, keys, field keys)", len(docs))
     chk.sample({"document": docs[-1].text[:400], "truth": [[t["cls"], t.get("key", "")] for t in docs[-1].truth[:8]]})
     chk.assumptions += ["the dialect is the grammar of DESIGN 3.3 (BibGrammar.tla); keys of entries/strings pairwise distinct",
                         "start lines and field lines are C03's subject and not reported here"]
